@@ -74,11 +74,18 @@ def genName : Gen Bytes := do
     else (do return (← genPlain) ++ (← genAlphaString 2))
   return if n.isEmpty then s "n" else n
 
+/-- strings holding a NUL byte (values only — names are read with cstring() and never hold one): the "char" value 0, a NUL
+before / after quotes and backslashes, before an injection payload -/
+def nulStrings : List Bytes := [[0], [0, 0], [97, 0], [0, 97], [97, 0, 98], [39, 0, 39], [97, 0, 92], [92, 0, 39], [0, 92, 39],
+  s "x" ++ [0] ++ s "'); DROP TABLE x; --", [0] ++ s "'); DROP TABLE x; --", s "a'b\\c" ++ [0] ++ s "d", [10, 0, 10], s "é" ++ [0]]
+
 def genString : Gen Bytes := do
-  let k ← Gen.below 10
-  if k < 4 then Gen.oneOf hostile
-  else if k < 8 then genAlphaString 8
-  else if k < 9 then return []
+  let k ← Gen.below 20
+  if k < 8 then Gen.oneOf hostile
+  else if k < 15 then genAlphaString 8
+  else if k < 16 then Gen.oneOf nulStrings
+  else if k < 17 then (do return (← genAlphaString 3) ++ [0] ++ (← genAlphaString 3))
+  else if k < 18 then return []
   else genPlain
 
 def edgeInts : List Int := [0, 1, -1, 9, 10, -10, 99, 100, 32767, -32768, 2147483647, -2147483648, 4294967295, 2147483648,
@@ -129,15 +136,30 @@ def typeNameOf (oid : Int) : Bytes :=
 def dedupNames (cols : List ColumnInfo) : List ColumnInfo :=
   cols.foldl (fun acc c => if acc.any (·.name == c.name) then acc else acc ++ [c]) []
 
+/-- the array types pgread decodes (keys of arrayElemTypes) -/
+def arrayOids : List Int := Generated.Export.arrayElemTypes.map (·.1)
+
 def genColumn : Gen ColumnInfo := do
-  -- json / jsonb columns (whose cells must be JSON text whatever their kind) one time in five
-  let oid ← (do if ← Gen.prob 1 5 then Gen.oneOf [(114 : Int), 3802] else Gen.oneOf typeOids)
+  -- json / jsonb columns (whose cells must be JSON text whatever their kind) one time in five; array-typed columns
+  -- (ARRAY[…]::type, elements typed) one time in five, jsonb[] / float8[] / float4[] / numeric[] often
+  let k ← Gen.below 10
+  let oid ← (do if k < 2 then Gen.oneOf [(114 : Int), 3802]
+                else if k < 3 then Gen.oneOf [(3807 : Int), 1022, 1021, 1231, 1007, 1009]
+                else if k < 4 then Gen.oneOf arrayOids
+                else Gen.oneOf typeOids)
   return { name := ← genName, type := typeNameOf oid, typID := oid }
+
+/-- a cell value for a column: in an array-typed column mostly arrays (of every kind of element, nested ones included) -/
+def genCellVal (c : ColumnInfo) (depth : Nat) : Gen GoVal := do
+  if arrayOids.contains c.typID && (← Gen.prob 3 4) then
+    let n ← Gen.edgy 0 4
+    return .arr (← Gen.listOf n (genVal (depth - 1)))
+  else genVal depth
 
 def genRow (cols : List ColumnInfo) (depth : Nat) : Gen Row := do
   let mut kvs : List (Bytes × GoVal) := []
   for c in cols do
-    if ← Gen.prob 9 10 then kvs := mapInsert kvs c.name (← genVal depth)
+    if ← Gen.prob 9 10 then kvs := mapInsert kvs c.name (← genCellVal c depth)
   if ← Gen.prob 1 10 then kvs := mapInsert kvs (← genName) (← genVal depth)
   return kvs.mergeSort fun a b => bytesLe a.1 b.1
 
